@@ -210,7 +210,7 @@ class QFunction(QToken):
             prev_char = char
         if to_consume != 0:
             return None, string
-        return string[:i], string[i + 1 :]
+        return string[:i], string[i:]
 
 
 class QDict(QToken):
@@ -275,7 +275,7 @@ class QDict(QToken):
             if to_consume == 0:
                 break
             prev_char = char
-        return string[:i], string[i + 1 :]
+        return string[:i], string[i:]
 
 
 class QList(QToken):
@@ -330,7 +330,7 @@ class QList(QToken):
             if to_consume == 0:
                 break
             prev_char = char
-        return string[:i], string[i + 1 :]
+        return string[:i], string[i:]
 
 
 qtypes: Sequence[Type[QToken]] = [QString, QInteger, QFunction, QDict, QList, QVariable]
